@@ -44,7 +44,10 @@ def impl_cfg(cfg):
     for th in cfg:
         a, b, i = th["key"]
         ops = [[o[0], pay(o[1])] if o[0] == "send" else list(o) for o in th["ops"]]
-        out.append(dict(key=[f"n{a}", f"n{b}", i], cb=th["cb"], ops=ops))
+        d = dict(key=[f"n{a}", f"n{b}", i], cb=th["cb"], ops=ops)
+        if th.get("cls"):
+            d["cls"] = th["cls"]
+        out.append(d)
     return out
 
 
@@ -70,7 +73,66 @@ def rkey(k):
     return [k[1], k[0], k[2]]
 
 
+def socket_classes():
+    """names of the socket classes socket.py exports, and whether each lets the caller choose use_callbacks"""
+    import importlib
+    import inspect
+    sm = importlib.import_module("netqasm.sdk.classical_communication.thread_socket.socket")
+    return {c.__name__: ("use_callbacks" in inspect.signature(c.__init__).parameters)
+            for c in vars(sm).values() if isinstance(c, type) and issubclass(c, sm.ThreadSocket)}
+
+
 def gen_cfg(rng, family=None):
+    family, cfg = _gen_cfg(rng, family)
+    # endpoints of every exported socket class: a class that forces callback delivery (StorageThreadSocket)
+    # stands for a callback endpoint
+    forced = [n for n, takes in socket_classes().items() if not takes]
+    if forced:
+        for th in cfg:
+            if th.get("cb") and rng.random() < 0.5:
+                th["cls"] = rng.choice(forced)
+    return family, cfg
+
+
+def gen_two_runs(rng):
+    """Two configurations on the same names / socket id for one process: the first leaves something behind
+    (unreceived messages, endpoints that never disconnect), then reset_socket_hub(), then the second."""
+    cb = rng.random() < 0.3
+    n1 = rng.randint(1, 3)
+    first = [dict(key=[0, 1, 0], cb=False, ops=[["connect"]] + [["send", 20 + 2 * i + 1] for i in range(n1)] +
+                                           ([["disconnect"]] if rng.random() < 0.3 else [])),
+             dict(key=[1, 0, 0], cb=cb, ops=[["connect"]] + ([] if cb else [["recv"] for _ in range(rng.randint(0, n1 - 1))]) +
+                                        ([["disconnect"]] if rng.random() < 0.2 else []))]
+    n2 = rng.randint(0, 2)
+    cb2 = rng.random() < 0.3
+    rops = [["connect"]] + ([] if cb2 else [["recvnb"]] * rng.randint(1, 2) + [["recv"] for _ in range(n2)])
+    second = [dict(key=[0, 1, 0], cb=False, ops=[["connect"]] + [["send", 2 * i + 1] for i in range(n2)]),
+              dict(key=[1, 0, 0], cb=cb2, ops=rops)]
+    if rng.random() < 0.5:
+        second.reverse()
+    return first, second
+
+
+def run_two(cfg1, cfg2, ch1, ch2):
+    """run cfg1, reset_socket_hub(), run cfg2 — on the hub object the exported socket classes are bound to.
+    Everything that reads the hub is computed before the next phase touches it."""
+    out = {}
+    r1 = hs.Run(impl_cfg(cfg1), live=True)
+    try:
+        r1.execute(ch1, mode="line")
+        if not r1.harness_errors:
+            out["bad1"], out["ci1"] = oracle(r1, cfg1), canon_impl(r1, cfg1)
+        r2 = hs.Run(impl_cfg(cfg2), live=True, reset_api=True)
+        r2.execute(ch2, mode="line")
+        if not r2.harness_errors:
+            out["bad2"], out["ci2"] = oracle(r2, cfg2), canon_impl(r2, cfg2)
+    finally:
+        r1.cleanup_live()
+    out["r1"], out["r2"] = r1, r2
+    return out
+
+
+def _gen_cfg(rng, family=None):
     """Small configurations: 2-4 threads, <= 4 ops each between connect and disconnect."""
     family = family or rng.choice(["pair", "pair", "pair", "paircb", "paircb", "twosock", "threenode",
                                    "reinc", "reinc", "lone", "shared", "reconn", "reconn", "reconn", "switch", "switch", "switch"])
@@ -253,22 +315,22 @@ def oracle(run, cfg):
     Returns a list of (kind, description)."""
     bad = []
     for e in run.errors:
-        bad.append(("harness-error", e))
+        bad.append(("lock-discipline", e))
     n = len(cfg)
     # an operation must end with its documented outcome: ok / message / ConnectionError / "nothing to
     # receive" for a non-blocking receive; never IndexError, KeyError or another RuntimeError
     for t in range(n):
         for z in run.results[t]:
-            if z[1] in ("indexerr", "keyerr", "runtime"):
+            if z[1] in ("indexerr", "keyerr", "runtime") or (isinstance(z[1], str) and z[1].startswith("crash:")):
                 bad.append(("op-crashed", f"thread {t} {cfg[t]['key']} op {z[0]} {cfg[t]['ops'][z[0]]} raised {z[1]}"))
     by_key = {}
     for t, th in enumerate(cfg):
         by_key.setdefault(tuple(th["key"]), []).append(t)
     res = run.results          # per thread: (op index, result, start stamp, end stamp, start log, end log)
     final_q = {}
-    for k, v in dict.items(run.hub._messages):
-        final_q[(int(k[0][1:]), int(k[1][1:]), k[2])] = [unpay(x) for x in list.__iter__(v)]
-    final_open = {(int(k[0][1:]), int(k[1][1:]), k[2]) for k in set.__iter__(run.hub._open_sockets)}
+    for k, v in run.raw_queues().items():
+        final_q[(int(k[0][1:]), int(k[1][1:]), k[2])] = [unpay(x) for x in v]
+    final_open = {(int(k[0][1:]), int(k[1][1:]), k[2]) for k in run.raw_keys("_open_sockets")}
 
     for k, rts in by_key.items():
         sts = by_key.get(tuple(rkey(list(k))), [])
@@ -317,7 +379,7 @@ def oracle(run, cfg):
     # an endpoint whose receive callback is registered in the hub at the end (it is listening in callback mode) and
     # that never disconnected must have nothing left in its queue (also after a switch of use_callbacks)
     if run.end_reason in ("done", "quiescent"):
-        registered = {(int(k[0][1:]), int(k[1][1:]), k[2]) for k in dict.keys(run.hub._recv_callbacks)}
+        registered = {(int(k[0][1:]), int(k[1][1:]), k[2]) for k in run.raw_keys("_recv_callbacks")}
         for k, rts in by_key.items():
             if len(rts) == 1 and k in registered and final_q.get(k) \
                     and not any(o[0] == "disconnect" for o in cfg[rts[0]]["ops"]):
@@ -439,14 +501,14 @@ def run_impl_bc(cfg, chooser, trace_socket_py=False):
 def oracle_bcast(run, cfg):
     """Every message handed to the hub for a receiver is received exactly once, per-sender order preserved;
     a receiver that is still listening (blocked in a receive) has nothing pending."""
-    bad = [("harness-error", e) for e in run.errors]
+    bad = [("lock-discipline", e) for e in run.errors]
     for t in range(len(cfg)):
         for z in run.results[t]:
-            if z[1] in ("indexerr", "keyerr", "runtime"):
+            if z[1] in ("indexerr", "keyerr", "runtime") or (isinstance(z[1], str) and z[1].startswith("crash:")):
                 bad.append(("op-crashed", f"thread {t} op {z[0]} {cfg[t]['ops'][z[0]]} raised {z[1]}"))
     final_q = {}
-    for k, v in dict.items(run.hub._messages):
-        final_q[(k[0], k[1], k[2])] = list(list.__iter__(v))
+    for k, v in run.raw_queues().items():
+        final_q[(k[0], k[1], k[2])] = list(v)
     complete = run.end_reason in ("done", "quiescent")
     for t, th in enumerate(cfg):
         res = run.results[t]
@@ -507,9 +569,9 @@ def canon_impl_bc(run, cfg):
     def k3(k):
         return [int(k[0][1:]), int(k[1][1:]), k[2]]
 
-    q = sorted([k3(k), [unpay(x) for x in list.__iter__(v)]] for k, v in dict.items(run.hub._messages) if list.__len__(v))
-    return dict(parties=ps, queues=q, open=sorted(k3(k) for k in set.__iter__(run.hub._open_sockets)),
-                rem=sorted(k3(k) for k in set.__iter__(run.hub._remote_sockets)))
+    q = sorted([k3(k), [unpay(x) for x in v]] for k, v in run.raw_queues().items() if v)
+    return dict(parties=ps, queues=q, open=sorted(k3(k) for k in run.raw_keys("_open_sockets")),
+                rem=sorted(k3(k) for k in run.raw_keys("_remote_sockets")))
 
 
 def canon_model_bc(o):
@@ -522,3 +584,139 @@ def brun_model(drv, cfg, sched):
     line = drv.proc.stdout.readline()
     assert line.startswith("BRUN "), line
     return json.loads(line[5:])
+
+
+# ------------------------------------------------------------------ free-running executions (oracle only)
+# No scheduler, no proxies, no tracing: real threads on a fresh real hub, every blocking call with a timeout, the
+# whole run under a wall-clock watchdog.  Used when the harness could not drive the hub (and as a last resort of
+# the search): only what the threads themselves observe is judged.
+def free_run(cfg, rng, t_recv=0.35, t_conn=1.0, t_total=3.0):
+    import importlib
+    import threading
+    import time
+    hubmod = importlib.import_module("netqasm.sdk.classical_communication.thread_socket.socket_hub")
+    sockmod = importlib.import_module("netqasm.sdk.classical_communication.thread_socket.socket")
+    Hub = type("FastHub", (hubmod._SocketHub,), {"_CONNECT_SLEEP_TIME": 0.002, "_RECV_SLEEP_TIME": 0.002})
+    hub = Hub()
+    n = len(cfg)
+    results = [[] for _ in cfg]
+    storage = [[] for _ in cfg]
+    socks = [None] * n
+    jit = [[rng.random() * 0.004 for _ in th["ops"]] for th in cfg]
+    icfg = impl_cfg(cfg)
+
+    class S(sockmod.ThreadSocket):
+        _SOCKET_HUB = hub
+
+        def __init__(s, tid, *a, **kw):
+            s._tid = tid
+            super().__init__(*a, **kw)
+
+        def recv_callback(s, msg):
+            storage[s._tid].append(msg)
+
+        def conn_lost_callback(s):
+            pass
+
+        def __del__(s):
+            pass
+
+    def work(t):
+        th = icfg[t]
+        k = th["key"]
+        for i, op in enumerate(th["ops"]):
+            time.sleep(jit[t][i])
+            t_op = time.time()
+            try:
+                if op[0] == "connect":
+                    s = S.__new__(S)
+                    socks[t] = s
+                    s.__init__(t, k[0], k[1], socket_id=k[2], use_callbacks=bool(th["cb"]), timeout=t_conn)
+                    r = "ok"
+                elif socks[t] is None:
+                    r = "connerr"
+                elif op[0] == "send":
+                    socks[t].send(op[1]); r = "ok"
+                elif op[0] == "recv":
+                    r = ["msg", socks[t].recv(timeout=t_recv)]
+                elif op[0] == "recvnb":
+                    r = ["msg", socks[t].recv(block=False)]
+                elif op[0] == "disconnect":
+                    hub.disconnect(socks[t]); r = "ok"
+                elif op[0] == "setcb":
+                    socks[t].use_callbacks = bool(op[1]); r = "ok"
+                else:
+                    r = "?"
+            except ConnectionError:
+                r = "connerr"
+            except TimeoutError:
+                r = "timeout"
+            except RuntimeError:
+                r = "empty" if op[0] == "recvnb" else "crash:RuntimeError"
+            except Exception as e:     # noqa
+                r = "crash:" + type(e).__name__
+            results[t].append((i, r, t_op, time.time()))
+
+    ths = [threading.Thread(target=work, args=(t,), daemon=True) for t in range(n)]
+    for t in ths:
+        t.start()
+    t_end = time.time() + t_total
+    for t in ths:
+        t.join(max(0.0, t_end - time.time()))
+    alive = [t.is_alive() for t in ths]
+    queues = {}
+    try:
+        for k, v in list(hub._messages.items()):
+            queues[(int(k[0][1:]), int(k[1][1:]), k[2])] = [unpay(x) for x in list(v)]
+    except Exception:
+        queues = None
+    return dict(results=results, storage=storage, alive=alive, queues=queues)
+
+
+def oracle_free(fr, cfg):
+    bad = []
+    by_key = {}
+    for t, th in enumerate(cfg):
+        by_key.setdefault(tuple(th["key"]), []).append(t)
+    for t, th in enumerate(cfg):
+        for (i, r, *_t) in fr["results"][t]:
+            if isinstance(r, str) and (r.startswith("crash:")):
+                bad.append(("op-crashed", f"thread {t} {th['key']} op {i} {th['ops'][i]} raised {r}"))
+        if fr["alive"][t]:
+            i = len(fr["results"][t])
+            bad.append(("blocked-for-real", f"thread {t} {th['key']} did not finish op {i} {th['ops'][i] if i < len(th['ops']) else ''} "
+                                            f"within the wall-clock bound although every blocking call has a timeout"))
+    if any(fr["alive"]):
+        return bad
+    for k, rts in by_key.items():
+        sts = by_key.get(tuple(rkey(list(k))), [])
+        if len(rts) != 1 or len(sts) != 1:
+            continue
+        r, s = rts[0], sts[0]
+        if any(o[0] == "setcb" for o in cfg[r]["ops"]):
+            continue
+        sends = [(cfg[s]["ops"][i][1], t1) for (i, x, t0, t1) in fr["results"][s] if cfg[s]["ops"][i][0] == "send" and x == "ok"]
+        sent = [m for m, _ in sends]
+        polled = [unpay(x[1]) for (_i, x, *_t) in fr["results"][r] if isinstance(x, list)]
+        stored = [unpay(x) for x in fr["storage"][r]]
+        if stored and polled:
+            continue
+        got = stored if cfg[r]["cb"] else polled
+        if got != sent[:len(got)]:
+            bad.append(("fifo", f"receiver {list(k)} got {got}, sender sent {sent}"))
+            continue
+        if fr["queues"] is not None:
+            left = fr["queues"].get(k, [])
+            if got + left != sent:
+                bad.append(("exactly-once", f"receiver {list(k)}: received {got} + still queued {left} != sent {sent}"))
+        # a blocking receive that gave up although a message had been sent before it even started
+        nrecv = 0
+        for (i, x, t0, t1) in fr["results"][r]:
+            if isinstance(x, list):
+                nrecv += 1
+            elif x == "timeout" and cfg[r]["ops"][i][0] == "recv" and not cfg[r]["cb"]:
+                avail = sum(1 for (_m, te) in sends if te < t0)
+                if avail > nrecv:
+                    bad.append(("blocked", f"blocking receive of {list(k)} (op {i}) timed out although {avail} messages had "
+                                           f"been sent and only {nrecv} received before it started"))
+    return bad
